@@ -324,6 +324,8 @@ class ECU(UDSClient):
             block_length = max_block_length
         # block_length includes the service identifier and block counter; payload must be smaller
         payload_size = block_length - 2
+        if payload_size < 1:
+            raise ValueError(f"block length {block_length} leaves no room for payload")
         counter = 0
         for i in range(0, len(data), payload_size):
             counter += 1
